@@ -64,6 +64,13 @@ package progress
 //@   modifies i.sum, i.count, i.min, i.max
 //@   ensures i.sum == 0 && i.count == 0 && i.min == 0 && i.max == 0 && wfDur(i)
 //@
+//@ func (*IterationDurations).moveTo
+//@   props C17 C01
+//@   requires dst != nil && dst != i && wfDur(i)
+//@   modifies i.sum, i.count, i.min, i.max, dst.sum, dst.count, dst.min, dst.max
+//@   ensures [moved] dst.sum == old(i.sum) && dst.count == old(i.count) && dst.min == old(i.min) && dst.max == old(i.max) && wfDur(dst)
+//@   ensures [cleared] i.sum == 0 && i.count == 0 && i.min == 0 && i.max == 0 && wfDur(i)
+//@
 //@ pred wfStats(d *DurationStats) = wfDur(d.running) && wfDur(d.lifetime)
 //@
 //@ func (*DurationStats).Record
@@ -153,3 +160,87 @@ package progress
 //@           result.SuccessfulIterationDurations.Average == (NrecS == 0 ? 0 : SumS / NrecS) &&
 //@           result.FailedIterationDurations.Min == MinF && result.FailedIterationDurations.Max == MaxF &&
 //@           result.FailedIterationDurations.Average == (NrecF == 0 ? 0 : SumF / NrecF)
+//@
+//@ // ---- C01 under interleaving (variant @conc): the collector (serialised by the result mutex) runs while other
+//@ // threads keep recording into the period accumulator G01acc. Each atomic operation is one step; between any two
+//@ // steps the environment may perform any number of Add calls on G01acc (fnspec addsArrive). GnAdd[a] is the number
+//@ // of count increments ever made on accumulator a. Claim: no record is lost or counted twice:
+//@ // lifetime.count + running.count == GnAdd[running] is preserved by CollectLifetime.
+//@ ghost var GnAdd map[int]int
+//@ ghost var G01acc *IterationDurations
+//@ ghost var GupdLoaded int
+//@ ghost var GupdAt int
+//@ ghost var GresetAt int
+//@
+//@ fnspec addsArrive(x *IterationDurations)
+//@   modifies x.count, x.sum, x.min, x.max, GnAdd
+//@   ensures x.count >= old(x.count) && x.count - old(x.count) == GnAdd[x] - old(GnAdd[x])
+//@   ensures forall k int :: k != x ==> GnAdd[k] == old(GnAdd[k])
+//@
+//@ func (*IterationDurations).Add @conc
+//@   props C01
+//@   interference addsArrive(G01acc)
+//@   requires i != nil && i == G01acc
+//@   ghost after call (*Int64).Add #1 : GnAdd[i] = GnAdd[i] + 1
+//@   modifies i.sum, i.count, i.min, i.max, GnAdd
+//@   ensures [counted-once] i.count - old(i.count) == GnAdd[i] - old(GnAdd[i]) && GnAdd[i] >= old(GnAdd[i]) + 1
+//@   ensures [others] forall k int :: k != i ==> GnAdd[k] == old(GnAdd[k])
+//@
+//@ func (*DurationStats).Record @conc
+//@   props C01
+//@   interference addsArrive(G01acc)
+//@   requires d != nil && d.running == G01acc
+//@   modifies d.running, GnAdd
+//@   ensures [counted-once] d.running.count - old(d.running.count) == GnAdd[G01acc] - old(GnAdd[G01acc]) && GnAdd[G01acc] >= old(GnAdd[G01acc]) + 1
+//@
+//@ func (*IterationDurations).average @conc
+//@   props C01
+//@   interference addsArrive(G01acc)
+//@   requires i != nil && G01acc != nil
+//@   modifies G01acc.count, G01acc.sum, G01acc.min, G01acc.max, GnAdd
+//@   ensures [env-only] G01acc.count >= old(G01acc.count) && G01acc.count - old(G01acc.count) == GnAdd[G01acc] - old(GnAdd[G01acc])
+//@   ensures [others] forall k int :: k != G01acc ==> GnAdd[k] == old(GnAdd[k])
+//@
+//@ func (*IterationDurations).Snapshot @conc
+//@   props C01
+//@   interference addsArrive(G01acc)
+//@   requires i != nil && G01acc != nil
+//@   modifies G01acc.count, G01acc.sum, G01acc.min, G01acc.max, GnAdd
+//@   ensures [env-only] G01acc.count >= old(G01acc.count) && G01acc.count - old(G01acc.count) == GnAdd[G01acc] - old(GnAdd[G01acc])
+//@   ensures [others] forall k int :: k != G01acc ==> GnAdd[k] == old(GnAdd[k])
+//@
+//@ func (*IterationDurations).Update @conc
+//@   props C01
+//@   interference addsArrive(G01acc)
+//@   requires i != nil && other != nil && i != other && i != G01acc && other != G01acc && G01acc != nil
+//@   modifies i.sum, i.count, i.min, i.max, G01acc.count, G01acc.sum, G01acc.min, G01acc.max, GnAdd
+//@   ensures [merged] i.count == old(i.count) + other.count && other.count == old(other.count)
+//@   ensures [env-only] G01acc.count >= old(G01acc.count) && G01acc.count - old(G01acc.count) == GnAdd[G01acc] - old(GnAdd[G01acc])
+//@   ensures [others] forall k int :: k != G01acc ==> GnAdd[k] == old(GnAdd[k])
+//@
+//@ func (*IterationDurations).moveTo @conc
+//@   props C01
+//@   interference addsArrive(G01acc)
+//@   requires i != nil && i == G01acc && dst != nil && dst != i
+//@   ghost after call (*Int64).Swap #1 : GupdLoaded = ret0 ; GupdAt = GnAdd[i]
+//@   modifies i.sum, i.count, i.min, i.max, dst.sum, dst.count, dst.min, dst.max, GnAdd, GupdLoaded, GupdAt
+//@   ensures [moved-what-was-there] dst.count == GupdLoaded && GupdLoaded - old(i.count) == GupdAt - old(GnAdd[i])
+//@   ensures [left-behind] i.count == GnAdd[i] - GupdAt && old(GnAdd[i]) <= GupdAt
+//@   ensures [others] forall k int :: k != i ==> GnAdd[k] == old(GnAdd[k])
+//@
+//@ func (*IterationDurations).Reset @conc
+//@   props C01
+//@   interference addsArrive(G01acc)
+//@   requires i != nil && i == G01acc
+//@   ghost after call (*Int64).Store #1 : GresetAt = GnAdd[i]
+//@   modifies i.sum, i.count, i.min, i.max, GnAdd, GresetAt
+//@   ensures [cleared-then-grows] i.count == GnAdd[i] - GresetAt && old(GnAdd[i]) <= GresetAt
+//@   ensures [others] forall k int :: k != i ==> GnAdd[k] == old(GnAdd[k])
+//@
+//@ func (*DurationStats).CollectLifetime @conc
+//@   props C01
+//@   interference addsArrive(G01acc)
+//@   requires d != nil && G01acc == d.running
+//@   requires [conserved] d.lifetime.count + d.running.count == GnAdd[G01acc]
+//@   modifies d.running, d.lifetime, GnAdd, GupdLoaded, GupdAt, GresetAt
+//@   ensures [conserved] d.lifetime.count + d.running.count == GnAdd[G01acc]
